@@ -108,6 +108,12 @@ def make_model(rng):
         if len(ins_) >= 2:
             for o in rng.sample(ins_, 2):
                 exts.append({"kind": "input", "name": o["name"], "fields": [{"name": "sharedExt", "type": {"n": "Int"}, "default": None}]})
+    # extensions that ADD A DIRECTIVE to an object type (at most one per type; alone or together with new fields)
+    if directives and rng.random() < 0.7:
+        for o in rng.sample([d for d in defs if d["kind"] == "object"], min(2, len([d for d in defs if d["kind"] == "object"]))):
+            mine = [e for e in exts if e["kind"] == "object" and e["name"] == o["name"]]
+            if mine and rng.random() < 0.5: mine[0]["dir"] = ' @mark(tag: "e")'
+            else: exts.append({"kind": "object", "name": o["name"], "interfaces": [], "fields": [], "dir": " @mark"})
     schema_ext = None
     if rng.random() < 0.4:
         # a directive-only `extend schema @stag` somewhere among the other definitions: nothing after it may be lost
@@ -141,7 +147,7 @@ def print_def(d, ext=False):
         kw = "type" if k == "object" else "interface"
         impl = (" implements " + " & ".join(d["interfaces"])) if d.get("interfaces") else ""
         body = (" {\n" + "\n".join(print_field(f) for f in d["fields"]) + "\n}") if d["fields"] else ""
-        return f"{pre}{kw} {d['name']}{impl}{body}"
+        return f"{pre}{kw} {d['name']}{impl}{d.get('dir', '')}{body}"
     if k == "union": return f"{pre}union {d['name']} = " + " | ".join(d["members"])
     if k == "input":
         return f"{pre}input {d['name']} {{\n" + "\n".join(f"  {f['name']}: {tstr(f['type'])}" + (" = " + print_value(f["default"]) if f.get("default") else "") for f in d["fields"]) + "\n}"
